@@ -364,3 +364,57 @@ func verifLemmaOrder(a, b, c Endpoint) (irrefl, trans, total bool) {
 //@ func (p *lazyPacket) Layers() []Layer
 //@   props C03
 //@   ensures sameSlice(result, p.layers) && p.next == nil
+
+// ---- packet.go: panics do not escape decoding, the error layer is last (C01) ---------------------------
+
+// recoverDecodeError recovers exactly when recovery is enabled.
+//@ func (p *packet) recoverDecodeError()
+//@   props C01
+//@   at recover 0: assert !p.decodeOptions.SkipDecodeRecovery
+
+// The deferred recovery is installed before the first decoder runs (so a panic in any decoder is caught).
+//@ func (p *eagerPacket) initialDecode(dec Decoder)
+//@   props C01
+//@   at Decode 0: assert deferred(recoverDecodeError)
+//@ func (p *lazyPacket) decodeNextLayer()
+//@   props C01
+//@   at Decode 0: assert deferred(recoverDecodeError)
+
+// addFinalDecodeError appends one DecodeFailure layer and makes it the error layer unless one is already set;
+// afterwards the last layer is that failure.
+//@ func (p *packet) addFinalDecodeError(err error, stack []byte)
+//@   props C01
+//@   ensures len(p.layers) == old(len(p.layers)) + 1 && p.last == p.layers[len(p.layers)-1]
+//@   ensures typeis(p.last, P_DecodeFailure) && fresh(ifaceptr(p.last))
+//@   ensures old(p.failure) == nil ==> ifaceptr(p.failure) == ifaceptr(p.last) && typeis(p.failure, P_DecodeFailure)
+//@   ensures old(p.failure) != nil ==> p.failure == old(p.failure)
+//@   ensures forall i int :: 0 <= i && i < old(len(p.layers)) ==> p.layers[i] == old(p.layers[i])
+
+// ---- packet.go: PacketSource, sequential clauses (C16) -------------------------------------------------
+
+// Options only configure the embedded DecodeOptions (every function converted to packetSourceOptionFunc is checked).
+//@ ifacecontract PacketSourceOption.apply(ps *PacketSource)
+//@   props C16
+//@   modifies DecodeOptions.*
+
+//@ func NewZeroCopyPacketSource(source ZeroCopyPacketDataSource, decoder Decoder, opts ...PacketSourceOption) *PacketSource
+//@   props C16
+//@   ensures result.zeroCopy
+//@   loop 0: invariant ps.zeroCopy
+
+//@ func NewPacketSource(source PacketDataSource, decoder Decoder, opts ...PacketSourceOption) *PacketSource
+//@   props C16
+//@   ensures !result.zeroCopy
+//@   loop 0: invariant !ps.zeroCopy
+
+// Using a buffer-reusing source with no-copy decoding on the channel interface is refused.
+//@ func (p *PacketSource) PacketsCtx(ctx context.Context) chan Packet
+//@   props C16
+//@   panics_iff p.DecodeOptions.NoCopy && p.zeroCopy
+//@   at packetsToChannel 0: assert !(p.DecodeOptions.NoCopy && p.zeroCopy)
+
+// Pull interface: an error yields no packet; otherwise the packet carries the capture info it was read with
+// and is marked truncated when fewer bytes were captured than were on the wire.
+//@ func (p *PacketSource) NextPacket() (Packet, error)
+//@   props C16
+//@   ensures result1 != nil ==> result0 == nil
